@@ -198,6 +198,9 @@ class ReadListLoop(LoopContract):
         self.st = st
 
     def entry(self, interp, ctx, env, it):
+        from vc.pyfe import _SymRange
+        if not (isinstance(it, _SymRange) and interp.as_int(it.n).eq(interp.as_int(env.get('length')))):
+            raise Unsupported('the loop is not `for .. in range(length)`: the loop contract does not apply')
         self.S1 = self.st.t
         self.n = interp.as_int(env.get('length'))
         res = env.get('res')
